@@ -3,10 +3,13 @@
 package model
 
 import (
+	"encoding/hex"
+	"encoding/json"
 	"fmt"
 	"math/bits"
 	"sort"
 	"strings"
+	"unicode/utf8"
 
 	"github.com/akrennmair/updog"
 )
@@ -19,6 +22,44 @@ type Expr struct {
 	Col  string  `json:"col,omitempty"`
 	Val  string  `json:"val,omitempty"`
 	Kids []*Expr `json:"kids,omitempty"`
+}
+
+// exprJSON is the wire form: strings that are not valid UTF-8 travel hex-encoded (encoding/json would replace the bytes).
+type exprJSON struct {
+	Op     string  `json:"op"`
+	Col    string  `json:"col,omitempty"`
+	Val    string  `json:"val,omitempty"`
+	ColHex string  `json:"col_hex,omitempty"`
+	ValHex string  `json:"val_hex,omitempty"`
+	Kids   []*Expr `json:"kids,omitempty"`
+}
+
+func (e *Expr) MarshalJSON() ([]byte, error) {
+	j := exprJSON{Op: e.Op, Col: e.Col, Val: e.Val, Kids: e.Kids}
+	if !utf8.ValidString(e.Col) {
+		j.Col, j.ColHex = "", hex.EncodeToString([]byte(e.Col))
+	}
+	if !utf8.ValidString(e.Val) {
+		j.Val, j.ValHex = "", hex.EncodeToString([]byte(e.Val))
+	}
+	return json.Marshal(j)
+}
+
+func (e *Expr) UnmarshalJSON(b []byte) error {
+	var j exprJSON
+	if err := json.Unmarshal(b, &j); err != nil {
+		return err
+	}
+	*e = Expr{Op: j.Op, Col: j.Col, Val: j.Val, Kids: j.Kids}
+	if j.ColHex != "" {
+		x, _ := hex.DecodeString(j.ColHex)
+		e.Col = string(x)
+	}
+	if j.ValHex != "" {
+		x, _ := hex.DecodeString(j.ValHex)
+		e.Val = string(x)
+	}
+	return nil
 }
 
 func Eq(c, v string) *Expr { return &Expr{Op: "eq", Col: c, Val: v} }
